@@ -34,7 +34,7 @@ def main():
                   "L2: heads from a finite near-miss list, at most 4 chunks after the head (the code before the loop does not look at individual chunks beyond emptiness of the string end)"]
     chk.bounds.append("free-string lemmas: no length bound, characters in z3's code point range U+0000-U+2FFFF; the finite alphabets remain as an independent second engine (CPython string semantics at the leaves)")
     chk.outside = ["non-str arguments", "code points above U+2FFFF in the free-string lemmas (covered by the finite alphabets only through look-alike samples)",
-                   "parser code using constructs the string executor declines (regular expressions, int()/float() on the symbolic string, str.replace/join, whitespace split): the free-string lemma is then inconclusive and only the finite alphabets decide"]
+                   "parser code using constructs the string executor declines (int()/float() on the symbolic string, str.replace/join, whitespace split, regular-expression flags / nested groups): the free-string lemma is then inconclusive and only the finite alphabets decide"]
     chk.assumptions = ["str.split returns separator-free chunks whose join is the input (CPython contract)",
                        "composition over any number of fields: written induction with invariant 'metric map = map of the fields seen so far, all distinct' (DESIGN.md section 6 C04)"]
     C.finish(chk)
